@@ -20,6 +20,16 @@ S = {
  'C12-2': ('C12', 'detect_invalid_input uses is_ascii_control', 'a C1 control code point inside a comment or string', 'C12 / C14 (screening part): VIOLATION screen-wrong, replayed natively'),
  'C11-1': ('C11', 'AstResolver::validate_target promotes the composition export kind', 'a world export whose name matches a root type declaration', 'C11 (resolution-time check): VIOLATION validate-target-resolver (rule-level)'),
  'C11-2': ('C11', 'wac_types::validate_target checks exports in the inverted direction', 'an exported instance whose member set differs from the world interface', 'C11 (binary check): VIOLATION validate-target-binary, replayed natively'),
+ 'C03-1': ('C03', 'aggregate() no longer re-points existing redirects when an import is renamed to a still-higher version', 'three versions on one track, highest created last', 'C09 (naming step; C03 itself is not claimed): VIOLATION aggregate-naming, replayed through TypeAggregator'),
+ 'C03-2': ('C03', 'aggregate() compares the names as strings instead of the versions', 'versions that differ in the number of digits of a component (1.9.0 / 1.10.0)', 'C09 (naming step, textual order of rendered names modelled exactly per track - added after the first run was inconclusive): VIOLATION aggregate-naming, replayed natively'),
+ 'C10-1': ('C10', 'plug() passes the two types to is_subtype in swapped order', 'same-named export/import whose instance types are strictly related', 'C10: VIOLATION plug-wiring / plug-error-class, realised with wider/narrower instance types and replayed through wac_graph::plug (realiser made asymmetric after the first run did not reproduce)'),
+ 'C10-2': ('C10', 'plug() drops the exact-name-first lookup (single semver-compatible find)', 'socket importing two versions of one track, exact one not first', 'C10: VIOLATION plug-wiring, replayed natively (contract of are_semver_compatible corrected: identical names are compatible)'),
+ 'C16-1': ('C16', 'new_expr collects the expected argument names into a HashSet', 'a spread argument that satisfies two or more imports', 'C16 (spread order part): VIOLATION spread-argument-order, confirmed in fresh processes'),
+ 'C16-2': ('C16', 'CompositionGraph::imports() lists explicit imports from the HashMap', 'two or more explicit imports', 'C16 (imports() part): VIOLATION imports-listing-order, confirmed in fresh processes'),
+ 'C02-1': ('C02', 'encoder caches embedded components by package name instead of package id', 'two versions of one package instantiated in one composition', None),
+ 'C02-2': ('C02', 'encode_names records core-module names in the component name map', 'a named node of core-module kind', None),
+ 'C08-1': ('C08', 'TypeConverter::find_owner follows only one alias hop', 'a `use` chain of three interfaces', None),
+ 'C08-2': ('C08', 'TypeEncoder::use_aliases no longer clears the per-scope alias table', 'two interfaces in one scope with equally named, different types', None),
  'C04-1': ('C04', 'inferred_instantiation_arg tries the last-segment match before the bound import/export name', 'local name differs from the bound name and a unique import ends in /<local>', 'C04 (inferred argument precedence): VIOLATION inferred-arg-precedence, two battery documents replayed through the real resolver'),
  'C04-2': ('C04', 'spread_instantiation_arg overwrites already bound arguments', 'a spread instance exporting a name bound by an earlier argument', 'C04 (spread rule): VIOLATION spread-rule, documents replayed through the real resolver'),
 }
